@@ -1,5 +1,5 @@
 import DirectVerif.Gen.C04
-import DirectVerif.Model.MaskGeom
+import DirectVerif.Model.MaskInterior
 /-!
 # Bridge C04 — what the translator extracted from `/repo` equals the hand-written model
 
@@ -40,6 +40,11 @@ theorem broadcast_table_eq : broadcast_branches = broadcastBranches := by decide
 the `center_mask_func` line generators go through `self._broadcast_mask(…, num_rows)` -/
 theorem return_table_ok : returnTableOk return_table = true := by decide
 
+/-- per-generator final assembly (abstract interpretation of every `mask_func`): the value returned by the mask
+branch is `pattern-of-this-frame ∨ acs`, the `return_acs` branch returns `acs` — a draw moved out of the
+frame loop, a frame copied from another one, or a dropped `| acs` makes this fail -/
+theorem assembly_table_ok : assemblyTableOk assembly_table = true := by decide
+
 /-- `build_masking_function`: constructor parameters per class; Kt generators pin `mode = DYNAMIC` -/
 theorem build_table_eq : build_table = buildTable ∧ kt_mode_pinned_dynamic = true := by decide
 
@@ -59,5 +64,48 @@ theorem magic_neglen_eq (n : Int) : magic_neglen n = magicNegLen n := by
   unfold magic_neglen magicNegLen
   simp only [Int.fdiv_eq_ediv_of_nonneg _ (by decide : (0 : Int) ≤ 2)]
   try omega
+
+/-! k-t grid helpers (numpy float idioms `np.floor(a / b)`, `np.ceil(a / b)` translated as floor / ceiling division) -/
+
+theorem kt_linear_eq (idx row : Int) (h : 0 ≤ row) : (kt_linear_x idx row, kt_linear_y idx row) = linear2d idx row := by
+  unfold kt_linear_x kt_linear_y linear2d
+  simp only [Int.fdiv_eq_ediv_of_nonneg _ h]
+
+theorem kt_phase_corrected_eq (phase ny : Int) : kt_phase_corrected phase ny = phase + halfUp ny := by
+  unfold kt_phase_corrected halfUp
+  simp only [Int.fdiv_eq_ediv_of_nonneg _ (by decide : (0 : Int) ≤ 2)]
+  omega
+
+theorem kt_time_corrected_eq (time nt : Int) : kt_time_corrected time nt = time + halfUp nt := by
+  unfold kt_time_corrected halfUp
+  simp only [Int.fdiv_eq_ediv_of_nonneg _ (by decide : (0 : Int) ≤ 2)]
+  omega
+
+theorem kt_trajectory_index_eq (phase time ny nt : Int) :
+    kt_trajectory_index (kt_time_corrected time nt) (kt_phase_corrected phase ny) ny = trajIndex ny nt phase time := by
+  rw [kt_time_corrected_eq, kt_phase_corrected_eq]
+  rfl
+
+/-- `ph`, `ti`, `inds` of KtUniform (and `inds` of KtGaussian1D) -/
+theorem kt_uniform_ph_ti_eq (ind : Int) (n nt : Nat) :
+    kt_uniform_ph ind n = ind % n - ((n / 2 : Nat) : Int) ∧ kt_uniform_ti ind n nt = ind / n - ((nt / 2 : Nat) : Int) := by
+  unfold kt_uniform_ph kt_uniform_ti
+  simp only [Int.fdiv_eq_ediv_of_nonneg _ (by decide : (0 : Int) ≤ 2), Int.fdiv_eq_ediv_of_nonneg _ (Int.natCast_nonneg n),
+    Int.fmod_eq_emod_of_nonneg _ (Int.natCast_nonneg n)]
+  constructor <;> omega
+
+theorem kt_inds_eq (ph ti : List Int) (n nt : Nat) :
+    ktInds n nt ph ti = List.zipWith (fun p t => kt_uniform_inds p t n nt) ph ti ∧
+    ktInds n nt ph ti = List.zipWith (fun p t => kt_gaussian_inds p t n nt) ph ti := by
+  unfold ktInds kt_uniform_inds kt_gaussian_inds
+  simp only [Int.fdiv_eq_ediv_of_nonneg _ (by decide : (0 : Int) ≤ 2)]
+  have e1 : ((nt : Int) / 2) = ((nt / 2 : Nat) : Int) := by omega
+  have e2 : ((n : Int) / 2) = ((n / 2 : Nat) : Int) := by omega
+  rw [e1, e2]
+  exact ⟨rfl, rfl⟩
+
+/-- the clamp `inds[inds <= 0] = 1` exists in KtUniform (the driver runs `ktUniformFlat true`) and not in
+KtGaussian1D -/
+theorem clamp_table_eq : clamp_KtUniform = some (0, 1) ∧ clamp_KtGaussian1D = none := by decide
 
 end DirectVerif.Bridge.C04
